@@ -105,13 +105,13 @@ SPECS.update({
     "C09": dict(
         harness="cryptolib", src=["harness/cryptolib.cpp"], plan=lib_plan("c09", sanitize="none"), level="exploration",
         rule="tables exhaustively (S-box and inverse from the GF(2^8) definition, every log/antilog product the rounds can form for the 7 MixColumns constants x 256 values, Rcon); every (key, block) that differs from a base pair "
-             "in one key byte (16x256) and one block byte (16x256) - quick: FIPS-197 C.1 base fully + 3 other bases on a 1/5 lattice, thorough: 4 bases fully = 67M pairs; all 128x128 single-bit pairs on 4 bases; "
+             "in one key byte (16x256) and one block byte (16x256) - quick: FIPS-197 C.1 base fully + 3 other bases on a 1/5 lattice, thorough: 8 bases fully = 134M pairs; all 128x128 single-bit pairs on 4 (thorough 8) bases; "
              "encrypt == libcrypto, decrypt(encrypt(x)) == x, decrypt == libcrypto; distinct = (base, key byte position)",
         assumptions=ASSUME_LIB + ["bounded-alphabet claim: 2^256 pairs cannot be enumerated; every table entry, byte position and single-byte data path is"]),
     "C10": dict(
         harness="cryptolib", src=["harness/cryptolib.cpp"], plan=lib_plan("c10", sanitize="none"), level="exploration",
-        rule="objects from AesFactory::createCryMaster: 5 modes x 3 keys x 20 IVs (last k bytes 0xFF for k=0..16: counter carry through every depth, + 3 others) x ALL block sequences of length 0..4 over a 3-block alphabet (121), "
-             "plus streams of 300 and 65,539 blocks; encryptor == EVP (no padding), decryptor(encryptor output) == input, decryptor == EVP decrypt; distinct = (mode, IV kind, stream length class)",
+        rule="objects from AesFactory::createCryMaster: 5 modes x 3 keys x 20 IVs (last k bytes 0xFF for k=0..16: counter carry through every depth, + 3 others) x ALL block sequences of length 0..4 over a 3-block alphabet (121; thorough: length 0..5 over 4 blocks = 1,365), "
+             "plus streams of 300 and 65,539 blocks (thorough: also 2^20+3); encryptor == EVP (no padding), decryptor(encryptor output) == input, decryptor == EVP decrypt; distinct = (mode, IV kind, stream length class)",
         assumptions=ASSUME_LIB),
     "C16": dict(
         harness="cryptolib", src=["harness/cryptolib.cpp"], plan=lib_plan("c16"), level="exploration",
